@@ -163,7 +163,7 @@ def cases(c):
                             'cplx': cplx, 'kind': 'tones', 'directed': True})
                 out.append({'form': 'class', 'N': N, 'NW': NW, 'k': k, 'NFFT': NFFT, 'method': method,
                             'cplx': cplx, 'kind': 'tones', 'directed': True})
-    for i in range(900 if c.tier == 'quick' else 42000):
+    for i in range(900 if c.tier == 'quick' else 168000):
         N = int(rng.integers(16, 1025 if i % 6 == 0 else 160))
         NW = float(gen.pick(rng, NWS))
         k = gen.pick(rng, [None, 1, int(2 * NW), int(rng.integers(1, int(2 * NW) + 1))])
